@@ -109,8 +109,8 @@ def _dep_vs_class(d, c, env):
 
 def sig_identical(m1, m2):
     def key(m):
-        return ([(p["n"] if not p.get("po") else None, T.tname(p["t"]) if p.get("t") is not None else "object",
-                  bool(p.get("opt")), bool(p.get("po"))) for p in m.get("pos", [])],
+        # the names of positional parameters are not part of a signature (types, which may be omitted, keyword names)
+        return ([(T.tname(p["t"]) if p.get("t") is not None else "object", bool(p.get("opt"))) for p in m.get("pos", [])],
                 sorted((k["n"], T.tname(k["t"]) if k.get("t") is not None else "object", bool(k.get("req")))
                        for k in m.get("kw", [])))
     return key(m1) == key(m2)
@@ -226,7 +226,7 @@ def expected(methods, call, env):
             if st["nrec"] > REC_LIMIT:
                 return ("m", m["mid"])
             return ("r", m["mid"], run(methods, altcall, None))
-        if k == "nextalt":
+        if k in ("nextalt", "fnextalt"):
             st["nrec"] += 1
             if st["nrec"] > REC_LIMIT:
                 return ("m", m["mid"])
